@@ -167,7 +167,7 @@ def depth_of(t):
     if t[0] in ('multi', 'unused'):
         subs = t[1]
     if t[0] == 'adj':
-        subs = [t[2]] + ([t[1][1]] if t[1][0] in ('allow', 'level') else [])
+        subs = [t[2]] + ([t[1][1]] if t[1][0] in ('allow', 'level', 'levelc') else []) + ([t[1][2]] if t[1][0] == 'levelc' and t[1][2] is not None else [])
     if t[0] in ('bycons', 'preapp') and isinstance(t[2], list):
         subs = subs + [t[2][1]]
     return 1 + max([depth_of(s) for s in subs] or [0])
@@ -758,6 +758,13 @@ def gen_boundary(rng, count):
             spec = ['ha', [rng.choice(['d_hondt', 'sainte_lague'])]]
             ap = {c: rng.randint(1, 4) for c in consts}
             calc = ['calc', g.id(), 'levelbyc', [spec, ap, ['ha', [rng.choice(['d_hondt', 'sainte_lague'])]]]]     # with the default overall evaluator a fixed apportionment never grows
+            if rng.random() < 0.6:      # the same calculator over TREES (embedded in the model): constituency evaluator, overall evaluator or None
+                ce = rng.choice([lambda: ['bycons', g.dist_leaf(), dict(ap)], lambda: ['bycons', g.dist_leaf(), ['ev', g.dist_leaf()]],
+                                 lambda: ['pre', g.id(), 'ident', ['bycons', g.dist_leaf(), ['ev', g.dist_leaf()]]]])()
+                oe = rng.choice([g.dist_leaf(), g.dist_leaf(), ['tiebr', g.dist_leaf(), g.leaf('plurality')], None])
+                if oe is None and isinstance(ce[2], dict):
+                    oe = g.dist_leaf()
+                calc = ['levelc', ce, oe]
             second = ['adj', calc, ['byparty', g.dist_leaf(), g.dist_leaf()]]
             first = ['bycons', g.dist_leaf(), rng.randint(1, 2)]
             tree = ['multi', [first, second], 2]
